@@ -28,6 +28,14 @@ def load_checks():
     exec(m.group(0), ns)
     return ns["CHECKS"]
 
+def load_extra():
+    src = open("/verif/check").read()
+    m = re.search(r"EXTRA = \{.*?\n\}", src, re.S)
+    ns = {}
+    if m:
+        exec(m.group(0), ns)
+    return ns.get("EXTRA", {})
+
 def sh(cmd, **kw):
     return subprocess.run(cmd, stdout=subprocess.PIPE, stderr=subprocess.STDOUT, text=True, errors="replace", **kw)
 
@@ -79,8 +87,25 @@ def run_one(patch, pid, tier="quick", seed="1"):
     rt = time.time() - t
     out = p.stdout
     viol = [l for l in out.splitlines() if l.startswith("VIOLATION") or "] violation:" in l]
-    clean_wt()
     res = "CAUGHT" if (p.returncode == 1 and any(l.startswith("VIOLATION") for l in viol)) else ("MISSED(exit %d)" % p.returncode)
+    if res != "CAUGHT":
+        # the property's further binaries (run by ./check after the main one)
+        for xpkg, xbin, tag in load_extra().get(pid, []):
+            t = time.time()
+            pb = sh(["cargo", "build", "--release", "--offline", "-p", xpkg, "--bin", xbin], cwd=HM, env=env)
+            if pb.returncode != 0:
+                print(pb.stdout[-3000:]); continue
+            bt += time.time() - t
+            t = time.time()
+            px = sh([os.path.join(HM, "target", "release", xbin), "--tier", tier, "--seed", seed], cwd=VR,
+                    env=dict(env, VERIF_EVIDENCE_SUFFIX="." + tag))
+            rt += time.time() - t
+            xv = [l for l in px.stdout.splitlines() if l.startswith("VIOLATION") or "] violation:" in l]
+            if px.returncode == 1 and any(l.startswith("VIOLATION") for l in xv):
+                res, viol, out = "CAUGHT", xv, px.stdout
+                break
+            out += "\n--- %s ---\n" % xbin + px.stdout
+    clean_wt()
     print("%-8s %-4s %-55s build %.0fs run %.0fs" % (res, pid, os.path.basename(os.path.dirname(patch)) + "/" + os.path.basename(patch) if patch else "(no patch)", bt, rt))
     for l in viol[:4]:
         print("      ", l[:260])
